@@ -46,7 +46,8 @@ def cfg_C06(rs):
 
 
 def cfg_C01(rs):
-    return swarm(rs, {"checks": {"sem": True}, "props": ["C01"], "fault_rates": [0.0, 0.2, 0.35], "fault_kinds": ["F1", "F2", "F3c"]})
+    return swarm(rs, {"checks": {"sem": True}, "props": ["C01"], "fault_rates": [0.0, 0.2, 0.35], "fault_kinds": ["F1", "F2", "F3c"],
+                      "call_eqv_macro": 0.1})
 
 
 def cfg_C04(rs):
@@ -56,7 +57,7 @@ def cfg_C04(rs):
 
 def cfg_C10(rs):
     return swarm(rs, {"checks": {"sem": True}, "props": ["C10"], "configs": True, "weights": CONFIG_W, "fault_rates": [0.0, 0.2],
-                      "fault_kinds": ["F1", "F2", "F3c"]})
+                      "fault_kinds": ["F1", "F2", "F3c"], "call_eqv_macro": 0.35})
 
 
 def cfg_C05(rs):
